@@ -17,9 +17,24 @@ func init() { register("Recursion", extractRecursion) }
 //
 // A fieldgraph walk terminates only if it consults a visited set before recursing.
 type recSite struct {
-	fn      string
-	kind    string
-	guarded bool
+	fn       string
+	kind     string
+	guarded  bool
+	releases bool // the function deletes entries of a map (a guard it consults is then a PATH guard, not a visited set)
+}
+
+// releasesMarks: does the function call the builtin delete on anything?
+func releasesMarks(fd *ast.FuncDecl) bool {
+	found := false
+	ast.Inspect(fd.Body, func(n ast.Node) bool {
+		if c, ok := n.(*ast.CallExpr); ok {
+			if id, ok := c.Fun.(*ast.Ident); ok && id.Name == "delete" {
+				found = true
+			}
+		}
+		return true
+	})
+	return found
 }
 
 func usesVisitedGuard(fd *ast.FuncDecl) bool {
@@ -150,20 +165,20 @@ func extractRecursion() (string, error) {
 					}
 				}
 			}
-			sites = append(sites, recSite{fn: d + "." + name, kind: kind, guarded: guarded})
+			sites = append(sites, recSite{fn: d + "." + name, kind: kind, guarded: guarded, releases: releasesMarks(fd)})
 		}
 	}
 	sort.Slice(sites, func(a, b int) bool { return sites[a].fn < sites[b].fn })
 	var b strings.Builder
 	b.WriteString(header("Recursion", "internal/* (self- or mutually recursive traversals of messages)"))
-	b.WriteString("/-- (function, what the recursive call walks: nested | fieldgraph, consults a visited set before recursing). -/\n")
-	b.WriteString("def sites : List (String × String × Bool) := [\n")
+	b.WriteString("/-- (function, what the recursive call walks: nested | fieldgraph, consults a guard set before recursing, deletes entries of a map: the guard is then path-scoped). -/\n")
+	b.WriteString("def sites : List (String × String × Bool × Bool) := [\n")
 	for i, s := range sites {
 		sep := ","
 		if i == len(sites)-1 {
 			sep = ""
 		}
-		fmt.Fprintf(&b, "  (%s, %s, %v)%s\n", leanStr(s.fn), leanStr(s.kind), s.guarded, sep)
+		fmt.Fprintf(&b, "  (%s, %s, %v, %v)%s\n", leanStr(s.fn), leanStr(s.kind), s.guarded, s.releases, sep)
 	}
 	b.WriteString("]\nend Sebuf.Gen.Recursion\n")
 	return b.String(), nil
